@@ -291,11 +291,21 @@ def run(ctx):
     ctx.coverage["api_nests"] = len(a_items)
     pmap(ctx, work, s_items)
     pmap(ctx, work, a_items, chunk=max(1, len(a_items) // (ctx.nproc * 6)))
+    _front_load(ctx)
     ctx.assumptions += [
         "leaves are plain integers and every container is a list (tuples / arrays are outside the alphabet)",
         "pairing a field of container dimension >= 2 with a flat list of the same number of elements may be rejected "
         "with pydra's 'do not have same shape' error (statement silent); everything else must run",
     ]
+
+
+def _front_load(ctx):
+    """one violation of every signature first, so that each signature gets a replay file"""
+    seen, first, rest = set(), [], []
+    for v in ctx.violations:
+        (rest if v[0] in seen else first).append(v)
+        seen.add(v[0])
+    ctx.violations[:] = first + rest
 
 
 def replay(ctx, case):
